@@ -412,3 +412,13 @@ harness!(name=c15_sign_close_to, prop=C15, mode=R, kind=normal, tier=quick, unwi
     vassert!(!(Vector::new(vec![a]) == Vector::new(vec![b])), "== equates {:e} and {:e}", a, b);
 });
 
+
+// @bound c15_sign_bits: one element, every pair of finite doubles a > 0 > b including subnormals, every tolerance in [0, 1/2] (bit-precise, B)
+// @claim c15_sign_bits: Vector::close_to and Matrix::close_to never equate values of opposite sign, whatever their magnitude (the product of two tiny values underflows to zero: the sign test must not be a product) (B)
+// @cap c15_sign_bits: 120
+harness!(name=c15_sign_bits, prop=C15, mode=B, kind=normal, tier=quick, unwind=20, {
+    let (a, b, tol) = (inp::f64(0), inp::f64(1), inp::f64(2));
+    vassume!(a > 0.0 && a < f64::INFINITY && b < 0.0 && b > f64::NEG_INFINITY && tol >= 0.0 && tol <= 0.5);
+    vassert!(!Vector::new(vec![a]).close_to(&Vector::new(vec![b]), tol), "close_to equates {:e} and {:e}", a, b);
+    vassert!(!Matrix::new(vec![a], 1, 1).close_to(&Matrix::new(vec![b], 1, 1), tol), "Matrix::close_to equates {:e} and {:e}", a, b);
+});
